@@ -62,13 +62,15 @@ func FuzzBatchRequest(f *testing.F)   { fuzzTarget(f, "batched.TokenRequest.Unma
 func FuzzBatchResponse(f *testing.F) {
 	fuzzTarget(f, "batched.UnmarshalBatchedTokenResponses+Finalize")
 }
-func FuzzTokenKey(f *testing.F)      { fuzzTarget(f, "util.UnmarshalTokenKey") }
-func FuzzFinalize1(f *testing.F)     { fuzzTarget(f, "type1.FinalizeToken") }
-func FuzzFinalize2(f *testing.F)     { fuzzTarget(f, "type2.FinalizeToken") }
-func FuzzFinalize3(f *testing.F)     { fuzzTarget(f, "type3.FinalizeToken") }
-func FuzzFinalize5(f *testing.F)     { fuzzTarget(f, "type5.FinalizeTokens") }
-func FuzzIssuer3(f *testing.F)       { fuzzTarget(f, "type3.RateLimitedIssuer.Evaluate") }
-func FuzzVerifyRequest(f *testing.F) { fuzzTarget(f, "type3.Attester.VerifyRequest") }
+func FuzzTokenKey(f *testing.F)            { fuzzTarget(f, "util.UnmarshalTokenKey") }
+func FuzzFinalize1(f *testing.F)           { fuzzTarget(f, "type1.FinalizeToken") }
+func FuzzFinalize2(f *testing.F)           { fuzzTarget(f, "type2.FinalizeToken") }
+func FuzzFinalize3(f *testing.F)           { fuzzTarget(f, "type3.FinalizeToken") }
+func FuzzFinalize5(f *testing.F)           { fuzzTarget(f, "type5.FinalizeTokens") }
+func FuzzIssuer3(f *testing.F)             { fuzzTarget(f, "type3.RateLimitedIssuer.Evaluate") }
+func FuzzVerifyRequest(f *testing.F)       { fuzzTarget(f, "type3.Attester.VerifyRequest") }
+func FuzzIssuer3Signed(f *testing.F)       { fuzzTarget(f, "type3.RateLimitedIssuer.Evaluate+signed") }
+func FuzzVerifyRequestSigned(f *testing.F) { fuzzTarget(f, "type3.Attester.VerifyRequest+signed") }
 func FuzzVerifyThenFinalizeIndex(f *testing.F) {
 	fuzzTarget(f, "type3.Attester.VerifyRequest+FinalizeIndex")
 }
